@@ -297,7 +297,8 @@ pub fn gen_case(run_seed: u64, tier: Tier, force_cold: Option<bool>) -> Case {
                         } else if k == 2 {
                             Task::FieldSet(wl.usize(FIELD_SETS.len()))
                         } else {
-                            Task::Pack(match wl.below(4) {
+                            Task::Pack(match wl.below(5) {
+                                4 => 0, // the boundary sweep
                                 0 => TAG - 1 - wl.below(4),
                                 1 => 1 + wl.below(8),
                                 2 => (1u64 << 62) + wl.below(3),
@@ -641,7 +642,31 @@ fn run_task(task: &Task, shared: Option<&Arc<Valid<Schema>>>, shared_ids: &BTree
         }
         Task::Pack(raw) => {
             let mut out = String::new();
-            if let Some(id) = FileId::__verif_from_raw(*raw) {
+            if *raw == 0 {
+                // sweep: every power of two of the 63-bit id space, and its two neighbours
+                for b in 0..63u32 {
+                    for d in [-1i64, 0, 1] {
+                        let v = (1u64 << b).wrapping_add(d as u64);
+                        if v >= 1 && v < TAG {
+                            pack_probe(v, &mut out);
+                        }
+                    }
+                }
+            } else {
+                pack_probe(*raw, &mut out);
+            }
+            TaskResult {
+                output: out,
+                ids: vec![],
+            }
+        }
+    }
+}
+
+/// Pack / unpack, recompose, ordering and the public path through a located name, for one raw id
+fn pack_probe(raw: u64, out: &mut String) {
+    let raw = &raw;
+    if let Some(id) = FileId::__verif_from_raw(*raw) {
                 for tag in [false, true] {
                     let (t2, id2) = FileId::__verif_pack_roundtrip(tag, id);
                     if t2 != tag || id2 != id {
@@ -700,12 +725,6 @@ fn run_task(task: &Task, shared: Option<&Arc<Valid<Schema>>>, shared_ids: &BTree
                     }
                 }
             }
-            TaskResult {
-                output: out,
-                ids: vec![],
-            }
-        }
-    }
 }
 
 static WARM: std::sync::Once = std::sync::Once::new();
